@@ -46,7 +46,12 @@ RULE = ('case = (XSD version, base content model, candidate restriction). Bases:
         'constraints, xs:all); candidates: every systematic change of one place of the base (tightened / widened / '
         'zeroed occurrences of every particle, dropped / added / wrapped / swapped particles, chosen or dropped choice '
         'branches, changed compositor, wildcard→element and element→wildcard, renamed element, changed wildcard '
-        'namespace, emptied group). non-trivial = the candidate differs from the base and both types were built '
+        'namespace, emptied group); named groups (references to shared global groups); and a dedicated family '
+        '`element-vs-choice`: sequence(sibling?, choice{..}(2-3 branches that ALL match one element name — the element, '
+        'its substitution head, wildcards of 5 (1.1: 8) constraints admitting it — plus maybe one that does not), '
+        'sibling?) against the same model with the choice replaced by ONE element whose range is taken around each '
+        'branch range × choice range and around the sums over the matching branches (±1), sums-only ranges first. '
+        'non-trivial = the candidate differs from the base and both types were built '
         'without structural errors; distinct by canonical JSON. Facets: chains of 2-3 restriction steps over '
         'xs:integer / decimal / short / nonNegativeInteger / string / normalizedString / token (the systematic pairs '
         'of the property text: every pair of bound kinds over {-1,0,1,2,5}, of length kinds over {0..3}, of digit '
@@ -139,12 +144,15 @@ def ref_cex(d: tuple, b: tuple, alpha: list[str], maxlen: int, limit: int = 4000
     return None
 
 
-def run_batch(ctx: Ctx, drv: Optional[Driver], bases: list[tuple], v11: bool, fam: str, per_base: int) -> None:
+def run_batch(ctx: Ctx, drv: Optional[Driver], bases: list[tuple], v11: bool, fam: str, per_base: int,
+              cands_of: Any = None) -> None:
+    """`cands_of(base)`: the candidate restrictions of a base, [(kind of change, derived AST)] (default: every
+    systematic one-place change, lib_cm14.candidates)"""
     rng = ctx.rng
     derived: list[list[tuple]] = []
     tags: list[list[str]] = []
     for b in bases:
-        cands = c14.candidates(b, v11)
+        cands = cands_of(b) if cands_of is not None else c14.candidates(b, v11)
         if len(cands) > per_base:
             keep = [cands[0]] + rng.sample(cands[1:], per_base - 1)
         else:
@@ -248,8 +256,18 @@ def run_batch(ctx: Ctx, drv: Optional[Driver], bases: list[tuple], v11: bool, fa
             continue
         vd, vb = confirm(schema, i, j, w)
         if not (vd and not vb):
+            # the validator itself deviates from the specification on some models (C01-F0): the shortest witness
+            # of the oracle may be hidden by such a deviation, so a few more spec-level witnesses are tried
             ctx.count('witness-not-confirmed-on-implementation(valid_d=%s,valid_b=%s)' % (vd, vb))
-            continue
+            acc, _ = cm.viable_words(d, alpha, 7, 400)
+            for w2 in [x for x in acc if not cm.ref_accepts(b, x)][:6]:
+                vd, vb = confirm(schema, i, j, w2)
+                if vd and not vb:
+                    w = w2
+                    ctx.count('witness-confirmed-with-a-longer-word')
+                    break
+            else:
+                continue
         detail = {'witness_children': w, 'valid_for_derived': vd, 'valid_for_base': vb,
                   'port_accepts': ans['acc'] is True}
         fid = known_match(case, detail)
@@ -422,6 +440,91 @@ def open_content_family(ctx: Ctx, drv: Optional[Driver]) -> None:
 
 
 # ---------------------------------------------------------------------------------------------
+# a single derived element against a base CHOICE with several matching branches (elements.py:1213-1227:
+# every matching branch is tested on its own occurrence range × the range of the choice; OccursCalculator)
+
+ECH_BRANCH_OCC = [(1, 1), (2, 2), (3, 3), (1, 2), (2, 3), (0, 1), (0, 2), (2, None), (1, None)]
+ECH_GROUP_OCC = [(1, 1), (1, 1), (1, 1), (2, 2), (1, 2), (0, 1), (1, None), (2, 3)]
+ECH_WILD = ['##any', 'urn:t', 'urn:t urn:o', '##other', 'urn:o']
+ECH_WILD11 = ['##any -b', '!urn:p', '##any -c']
+
+
+def occ_mul(a: tuple, b: tuple) -> tuple:
+    lo = a[0] * b[0]
+    if a[1] is None:
+        hi = 0 if b[1] == 0 else None
+    elif b[1] is None:
+        hi = None if a[1] != 0 else 0
+    else:
+        hi = a[1] * b[1]
+    return lo, hi
+
+
+def ech_base(rng, v11: bool) -> tuple:
+    """sequence(sibling?, choice{..}(≥2 branches matching one element name, maybe one that does not), sibling?)
+    or the bare choice; the returned AST carries the path of the choice and the target name in `ECH_INFO`"""
+    target = rng.choice(['a', 'a', 's', 'o', 'h'])
+    pool: list[tuple] = [('e', target)]
+    if target == 's':
+        pool.append(('e', 'h'))                      # the head admits its member
+    wilds = [w for w in ECH_WILD + (ECH_WILD11 if v11 else []) if c14.leaf_matches(('a', w, 1, 1), target)]
+    pool += [('a', w) for w in rng.sample(wilds, min(len(wilds), rng.randint(1, 2)))]
+    rng.shuffle(pool)
+    branches = [x + rng.choice(ECH_BRANCH_OCC) for x in pool[:rng.choice([2, 2, 3])]]
+    if rng.random() < 0.3:
+        other = rng.choice([n for n in ('b', 'c') if n != target])
+        branches.insert(rng.randint(0, len(branches)), ('e', other) + rng.choice(ECH_BRANCH_OCC))
+    choice = ('g', 'choice') + rng.choice(ECH_GROUP_OCC) + (branches,)
+    if rng.random() < 0.15:
+        return choice
+    items: list[tuple] = [choice]
+    if rng.random() < 0.7:
+        items.insert(0, ('e', 'c' if target != 'c' else 'b') + rng.choice([(1, 1), (1, 1), (0, 1)]))
+    if rng.random() < 0.4:
+        items.append(('e', 'b') + rng.choice([(1, 1), (0, 1), (1, 2)]))
+    return ('g', 'sequence') + rng.choice([(1, 1), (1, 1), (1, 1), (0, 1), (1, 2)]) + (items,)
+
+
+def ech_candidates(rng, base: tuple, v11: bool, n: int) -> list[tuple[str, tuple]]:
+    """the choice replaced by ONE element particle whose range is taken around the range of each matching branch
+    (× the range of the choice) and around the sums over several matching branches"""
+    out: list[tuple[str, tuple]] = [('same', base)]
+    path = () if base[1] == 'choice' else next((k,) for k, it in enumerate(base[4]) if it[0] == 'g')
+    choice = c14.get(base, path)
+    names = ['a', 's', 'o', 'h', 'b']
+    for target in names:
+        match = [br for br in choice[4] if c14.leaf_matches(br, target)]
+        if len(match) < 1:
+            continue
+        grp = (choice[2], choice[3])
+        ranges = [occ_mul((br[2], br[3]), grp) for br in match]
+        sums = []
+        for k in range(2, len(match) + 1):
+            lo = sum(br[2] for br in match[:k])
+            hi = None if any(br[3] is None for br in match[:k]) else sum(br[3] for br in match[:k])
+            sums.append(occ_mul((lo, hi), grp))
+            sums.append((lo, hi))
+        los = {max(0, r[0] + dlt) for r in ranges + sums for dlt in (-1, 0, 1)}
+        his = {max(0, r[1] + dlt) for r in ranges + sums if r[1] is not None for dlt in (-1, 0, 1)} | {None}
+        occs = [(lo, hi) for lo in los for hi in his if hi is None or lo <= hi]
+        rng.shuffle(occs)
+        # ranges that fit the sum of the branches but no single branch come first
+        def fits(o, r):
+            return o[0] >= r[0] and (r[1] is None or (o[1] is not None and o[1] <= r[1]))
+        occs.sort(key=lambda o: 0 if (any(fits(o, r) for r in sums) and not any(fits(o, r) for r in ranges)) else 1)
+        for lo, hi in occs[:max(3, n // (1 if len(match) > 1 else 3))]:
+            tag = 'choice-to-element' if len(match) > 1 else 'choice-to-element-1branch'
+            d = c14.put(base, path, ('e', target, lo, hi)) if path else ('g', 'sequence', 1, 1, [('e', target, lo, hi)])
+            out.append((tag, d))
+    seen, res = set(), []
+    for t, d in out:
+        if repr(d) not in seen:
+            seen.add(repr(d))
+            res.append((t, d))
+    return res[:n + 1]
+
+
+# ---------------------------------------------------------------------------------------------
 # families
 
 def enumerated_bases() -> list[tuple]:
@@ -431,6 +534,12 @@ def enumerated_bases() -> list[tuple]:
     out += [m for m in cm.exhaustive_models(2, ['a'], occs=[(1, 1), (0, 1), (1, None)], depth=1, with_any=True)
             if any(l[0] == 'a' for l in cm.leaves(m))]
     return out
+
+
+def cands_for(ctx: Ctx, fam: str, v11: bool, per_base: int) -> Any:
+    if fam == 'element-vs-choice':
+        return lambda b: ech_candidates(ctx.rng, b, v11, per_base)
+    return None
 
 
 def families(ctx: Ctx):
@@ -448,6 +557,7 @@ def families(ctx: Ctx):
             if c14.has_refs(m):
                 named.append(m)
         yield 'named-groups', v11, named, ctx.pick(25, 40)
+        yield 'element-vs-choice', v11, [ech_base(rng, v11) for _ in range(ctx.pick(36, 300))], ctx.pick(14, 24)
 
 
 def occurs_table(ctx: Ctx, drv: Optional[Driver]) -> None:
@@ -887,6 +997,27 @@ def witness_oc(ctx: Ctx) -> None:
         ctx.notes.append(f'open_content_empty_group_counterexample no longer fails (accepted={acc}, valid_d={vd}, valid_b={vb})')
 
 
+def witness_choice_sum(ctx: Ctx) -> None:
+    """elem_choice_sum_counterexample on the real code: a{5,5} must be refused against choice(a{2,2} | any{3,3})
+    (each matching branch on its own); an acceptance is a failing input: c a^5 is valid for the derived type only"""
+    b = G('sequence', [E('c'), G('choice', [E('a', 2, 2), ('a', '##any', 3, 3)])])
+    d = G('sequence', [E('c'), E('a', 5, 5)])
+    schema = c14.build([b], [[d]], True)
+    case = {'v': '1.1', 'base': cm.show(b), 'derived': cm.show(d), 'change': 'choice-to-element', 'b_ast': b, 'd_ast': d,
+            'witness': 'elem_choice_sum_counterexample'}
+    ctx.case(case, True, tag='lean-counterexample-witness')
+    if schema.types['D0_0'].errors:
+        ctx.count('witness-reconfirmed:elem_choice_sum_counterexample(refused)')
+        return
+    w = ['c'] + ['a'] * 5
+    vd, vb = confirm(schema, 0, 0, w)
+    if vd and not vb:
+        ctx.failure('accepted restriction admits an instance that the base type rejects', case,
+                    {'witness_children': w, 'valid_for_derived': vd, 'valid_for_base': vb, 'port_accepts': False})
+    else:
+        ctx.notes.append(f'elem_choice_sum_counterexample: accepted by the build (valid_d={vd}, valid_b={vb})')
+
+
 def run(ctx: Ctx, driver_ok: bool) -> None:
     global FUEL
     FUEL = ctx.pick(1500, 3000)
@@ -899,6 +1030,7 @@ def run(ctx: Ctx, driver_ok: bool) -> None:
     facets_family(ctx, drv)
     attrs_family(ctx, drv)
     witnesses2(ctx)
+    witness_choice_sum(ctx)
     open_content_family(ctx, drv)
     witness_oc(ctx)
     if drv is None:
@@ -911,7 +1043,7 @@ def run(ctx: Ctx, driver_ok: bool) -> None:
             if ctx.time_left() < 60:
                 ctx.notes.append(f'time budget reached in family {fam}')
                 return
-            run_batch(ctx, drv, bases[k:k + 6], v11, fam, per_base)
+            run_batch(ctx, drv, bases[k:k + 6], v11, fam, per_base, cands_for(ctx, fam, v11, per_base))
 
 
 def search(ctx: Ctx) -> None:
@@ -938,7 +1070,7 @@ def search(ctx: Ctx) -> None:
             for k in range(0, len(bases), 6):
                 if ctx.failures or ctx.time_left() < 30 or len(ctx.mismatches) > n0 + 200:
                     return
-                run_batch(ctx, drv, bases[k:k + 6], v11, fam, per_base)
+                run_batch(ctx, drv, bases[k:k + 6], v11, fam, per_base, cands_for(ctx, fam, v11, per_base))
     finally:
         ctx.tier = saved
 
